@@ -244,6 +244,27 @@ def run(ctx, host=None):
 
     # the overlap test walks the rows ORDER BY offset; rows that share an offset (a zero-length object and its successor) come back in row-id order, so
     # a healthy pack validates clean only if rows are inserted in the order in which their objects were written
+    # no failure while reading an object is swallowed by the validator: an exception raised by the reader / decompresser is itself evidence of damage; it has to
+    # propagate (today's behaviour) or be recorded under the key -- a handler that logs and moves on turns damage into a clean report
+    nval = 0
+    for q in ('container:Container.validate', 'container:Container._validate_hashkeys_pack'):
+        vf = prog.fn(q)
+        nval += 1
+        swallow = None
+        for tr in [n for n in walk_local(vf.node) if isinstance(n, ast.Try)]:
+            for h in tr.handlers:
+                body_mod = ast.Module(body=h.body, type_ignores=[])
+                reraises = any(isinstance(x, ast.Raise) for x in ast.walk(body_mod))
+                records = any(isinstance(x, ast.Call) and isinstance(x.func, ast.Attribute) and x.func.attr in ('append', 'add', 'extend') for x in ast.walk(body_mod))
+                if not reraises and not records:
+                    swallow = swallow or h
+        if swallow is not None:
+            chk.bad(R3, q, f'except {norm(swallow.type) if swallow.type is not None else ""}: (neither re-raised nor recorded)', 'the validator catches an error raised while an object (or a whole pack) is being '
+                    'read and goes on without recording it: a corrupted compressed stream, a truncated pack or a wrong `compressed` flag then yields a clean validation although reading the object fails',
+                    where=f'{vf.module.relpath}:{swallow.lineno}')
+        else:
+            chk.ok(R3, q, 'exception handlers', detail='none swallows: read errors propagate or are recorded', nontrivial=False)
+
     R4 = chk.rule('C12.R4', 'pack writers insert the staged rows in writing order (no sort/reverse of the staged list): ties in ORDER BY offset then follow the byte order', 2)
     for q4 in ('container:Container.pack_all_loose', 'container:Container.add_streamed_objects_to_pack'):
         f4 = prog.fn(q4)
